@@ -95,7 +95,7 @@ CONTRACTS['EFLRSet._make_set_component_bytes'] = dict(
 CONTRACTS['EFLRSet._make_template_bytes'] = dict(
     props=[], axiom=True, params={}, returns='bytes', ensures=['result == template_bytes(self)'])
 CONTRACTS['EFLRSet._make_body_bytes[ZoneSet]'] = dict(
-    target='EFLRSet._make_body_bytes', self_class='ZoneSet', props=['C04', 'C09'],
+    target='EFLRSet._make_body_bytes', self_class='ZoneSet', props=['C04', 'C09', 'C14'],
     self_fields=SET_FIELDS, params={}, returns='bytes',
     requires=["self._set_type_struct == enc_ident('ZONE')"],
     ref_methods={'make_item_body_bytes': 'EFLRItem.make_item_body_bytes'},
@@ -119,11 +119,11 @@ MODELS = {'ZoneItemT': {'cls': 'ZoneItem', 'fields': dict({'name': 'str'}, **{a:
 
 # ---------------------------------------------------------------------------------------------- file header (hand-written components)
 CONTRACTS['FileHeaderSet._make_template_bytes'] = dict(
-    props=['C04', 'C09'], self_fields={}, params={}, returns='bytes',
+    props=['C04', 'C09', 'C14'], self_fields={}, params={}, returns='bytes',
     ensures=[('two-label-and-code-components', "result == bytes([52]) + enc_ident('SEQUENCE-NUMBER') + bytes([20]) + bytes([52]) + enc_ident('ID') + bytes([20])")])
 _SEQ10 = 'len(str(self.sequence_number)) > 10'
 CONTRACTS['FileHeaderItem._make_attrs_bytes'] = dict(
-    props=['C04', 'C09', 'C12'], self_fields={'sequence_number': 'int', 'header_id': 'str'}, params={}, returns='bytes',
+    props=['C04', 'C09', 'C12', 'C14'], self_fields={'sequence_number': 'int', 'header_id': 'str'}, params={}, returns='bytes',
     raises={'ValueError': f'{_SEQ10} or len(self.header_id) > 65',
             'UnicodeEncodeError': f'not ({_SEQ10}) and len(self.header_id) <= 65 and not all_ascii(self.header_id)'},
     ensures=[('len', 'len(result) == 79'),
